@@ -15,16 +15,34 @@ def LOOP(k, header, kw, body):
 
 UNIT = Unit(
     name="U-LOADPKG",
-    properties=["C16"],
+    properties=["C16", "C13"],
+    # read_gom_sources' sortedness is C13's clause; load_package's one-package clause is C16's
+    clause_scope={"C13": {"only": ["paths_sorted("]}, "C16": {"except": ["paths_sorted("]}},
     rules=["attrs", "fmtmsg", "msg_to_string", "ok_or_else_q", "let_chain", "let_chain_rev", "opt_map"],
     describe="packages::load_package: a package unit is ONE package — every file loaded into it (the entry file and every other .gom file of "
              "the directory) declares the unit's own package name; a file declaring another package is an error, never silently merged "
              "(its top-level items would otherwise be resolved under that other package's name)",
-    trusted=["the file system, the parser and collect_imports are stubs (arbitrary results); `?` on read_gom_sources / read_to_string / "
+    trusted=["read_gom_sources: fs::read_dir / DirEntry / Path::extension are stubs, `for entry in entries` is rewritten to a loop over Iterator::next, "
+             "`files.sort()` to a shim that establishes sortedness (std); termination of the directory walk is not claimed",
+             "the file system, the parser and collect_imports are stubs (arbitrary results); `?` on read_gom_sources / read_to_string / "
              "parse_ast_file is desugared to an early `return Err(..)`; `entry_path.is_some_and(|entry| entry == path)` is an opaque boolean"],
     items=[
         Adt(file=P, kw="struct", name="PackageUnit", rules=["attrs"]),
         Raw(path="contracts/loadpkg.shim.rs"),
+        Fn(file=P, name="read_gom_sources", ret="r",
+           obligation="the list of a package's source files is returned SORTED: its order is a function of the file names, not of the order in which the "
+                      "operating system enumerates the directory (that order fixes the order of everything compiled from the package)",
+           pre_rewrites=[
+               (re.compile(r"let entries = fs::read_dir\(dir\)\.map_err\(\|err\| \{.*?\}\)\?;", re.S), "let mut entries = match fs_read_dir(dir) { Ok(v) => v, Err(e) => { return Err(e); } };", 1),
+               ("for entry in entries {", "loop { let entry = match entries.next_entry() { Some(e) => e, None => { break; } };"),
+               (re.compile(r"let entry = entry\.map_err\(\|err\| \{.*?\}\)\?;", re.S), "let entry = match entry { Ok(v) => v, Err(e) => { return Err(e); } };", 1),
+               ('if path.extension().is_some_and(|ext| ext == "gom") {', "if has_gom_extension(&path) {"),
+               ("files.sort();", "vec_sort_paths(&mut files);", "*"),
+           ],
+           rewrites=[("dir: &Path", "dir: &PathBuf"), ("let mut files = Vec::new();", "let mut files: Vec<PathBuf> = Vec::new();")],
+           attrs="#[verifier::exec_allows_no_decreases_clause]",
+           contract="ensures r matches Ok(v) ==> paths_sorted(v@),",
+           loop_fn=lambda k, header, kw, body: "invariant true,"),
         Fn(file=P, name="load_package", ret="r",
            obligation="every file of the returned unit declares the unit's package name",
            pre_rewrites=[
